@@ -198,7 +198,7 @@ CHECKS["C19"] = {
     "technique": "rapid-generated concurrent request mixes; differential oracle = all sequential permutations on the real engine; Go race detector",
     "assumptions": ["the node's key is used by the node only (no prepared block is signed with it)", "blocks older than 3 minutes are confirmed but the confirm is not broadcast (product rule), so emitted confirms are mostly observed as stored signatures"],
     "units": [
-        {"name": "serializable", "test": "TestC19Serializable", "quick": {"checks": 15, "shards": 8, "timeout": 900}, "thorough": {"checks": 400, "shards": 16, "timeout": 3400}},
+        {"name": "serializable", "test": "TestC19Serializable", "quick": {"checks": 15, "shards": 8, "timeout": 900}, "thorough": {"checks": 70, "shards": 16, "timeout": 3400}},
         {"name": "store", "test": "TestC19Store", "quick": {"checks": 1500, "shards": 2, "timeout": 900}, "thorough": {"checks": 30000, "shards": 4, "timeout": 3400}},
         {"name": "store-race", "test": "TestC19Store", "race": True, "quick": {"checks": 300, "shards": 2, "timeout": 900}, "thorough": {"checks": 6000, "shards": 4, "timeout": 3400}},
         {"name": "race", "test": "TestC19Race", "race": True, "quick": {"checks": 80, "shards": 4, "timeout": 900}, "thorough": {"checks": 800, "shards": 8, "timeout": 3400}},
